@@ -177,6 +177,8 @@ structure DState where
   sys : SysReg := []
   scripts : List (Nat × List SysOp) := []
   srv : SrvReg := []
+  srvCur : Nat := 0
+  srvOthers : List (Nat × SrvReg) := []
   nt : NotReg := []
   nc : NotCenter := []
 
@@ -219,7 +221,14 @@ def handle (ds : DState) (line : String) : DState × String :=
       | none => (ds, "bad-op")
   | "srv" :: rest =>
     match rest with
-    | ["reset"] => ({ ds with srv := [] }, "reset")
+    | ["reset"] => ({ ds with srv := [], srvCur := 0, srvOthers := [] }, "reset")
+    | ["sel", k] =>          -- ServerBoot / ServerQuit / ServerTree ...: every registry is a table of its own
+      match k.toNat? with
+      | some k =>
+        let others := (ds.srvCur, ds.srv) :: ds.srvOthers.filter (·.1 != ds.srvCur)
+        let cur := match others.find? (·.1 == k) with | some (_, r) => r | none => []
+        ({ ds with srv := cur, srvCur := k, srvOthers := others }, "ok")
+      | none => (ds, "bad-op")
     | ["add", s, a, args] =>
       match s.toNat?, a.toNat?, args.toNat? with
       | some s, some a, some args => ({ ds with srv := srvAdd s a args ds.srv }, "ok")
